@@ -8,6 +8,8 @@ import (
 	"fmt"
 	"os"
 	"strings"
+	"sync/atomic"
+	"time"
 
 	"verifharness/internal/eng"
 	"verifharness/internal/hx"
@@ -39,6 +41,33 @@ func main() {
 	}
 	rep := hx.NewReport("incrtrace/"+*prop, *seed)
 	rng := hx.NewRand(*seed)
+	// watchdog: an operation of the library that does not return (a corrupted queue that is
+	// walked for ever, a deadlock) is an outcome, reported with the history that led to it
+	var lastProgress atomic.Int64
+	lastProgress.Store(time.Now().UnixNano())
+	go func() {
+		for {
+			time.Sleep(2 * time.Second)
+			if time.Since(time.Unix(0, lastProgress.Load())) < 25*time.Second {
+				continue
+			}
+			e, pend := eng.Current, eng.Pending.Load()
+			if e == nil || pend == nil {
+				continue
+			}
+			strs := e.OpStrings()
+			ops := append([]eng.Op(nil), e.Ops...)
+			strs, ops = append(strs, pend.String()), append(ops, *pend)
+			rep.AddViolation(hx.Violation{Property: *claim, What: fmt.Sprintf("%s did not return within 25 s (the library is looping or blocked)", pend.String()),
+				Key:    "engine:hang:" + pend.K,
+				Replay: map[string]any{"max_height": e.MaxHeight, "ops": strs, "ops_json": ops, "kind": "hang", "seed": *seed, "parallelism": *par}})
+			if *jsonOut != "" {
+				_ = rep.Write(*jsonOut)
+			}
+			fmt.Printf("incrtrace %s: an operation did not return; reported\n", *prop)
+			os.Exit(0)
+		}
+	}()
 	prof := eng.ProfileFor(*prop)
 	if len(prof.Prefix) == 0 {
 		prof.Ops = *ops
@@ -59,6 +88,7 @@ func main() {
 		prof.MaxHeight = *dagMaxH
 	}
 	for i := 0; i < *count; i++ {
+		lastProgress.Store(time.Now().UnixNano())
 		var e *eng.Exec
 		var mon *eng.Monitor
 		if memo != nil {
